@@ -39,7 +39,13 @@ try:
     if r.returncode: print(r.stdout)
     r = run_demo(); res["demo_changed_rc"] = r.returncode; res["demo_changed_tail"] = r.stdout[-600:]
     if a.tests:
-        r = sh("/venv/bin/python -m pytest -q -p no:cacheprovider " + " ".join("tornado/test/" + t for t in a.tests.split()), cwd=wt, timeout=1800,
+        flaky = ["tornado/test/process_test.py::ProcessTest::test_multi_process",
+                 "tornado/test/httputil_test.py::HTTPHeadersTest::test_linear_performance",
+                 "tornado/test/httputil_test.py::MultipartFormDataTest::test_disposition_param_linear_performance",
+                 "tornado/test/simple_httpclient_test.py::SimpleHTTPSClientTestCase::test_request_timeout",
+                 "tornado/test/simple_httpclient_test.py::SimpleHTTPClientTestCase::test_request_timeout"]
+        # wall-clock tests that fail on the clean tree too when the machine is loaded
+        r = sh("/venv/bin/python -m pytest -q -p no:cacheprovider " + " ".join("--deselect " + f for f in flaky) + " " + " ".join("tornado/test/" + t for t in a.tests.split()), cwd=wt, timeout=1800,
                env=dict(os.environ, PYTHONDONTWRITEBYTECODE="1"))
         res["tests_rc"] = r.returncode; res["tests_tail"] = r.stdout[-300:]
     res["checks"] = {}
